@@ -970,6 +970,17 @@ func (m *Machine) poisonGlobals(p *ssa.Package) {
 		if !ok {
 			continue
 		}
+		if p.Pkg.Path() == "os" && (g.Name() == "Stdin" || g.Name() == "Stdout" || g.Name() == "Stderr") {
+			// opaque, distinct, non-nil *os.File objects (any method call on them reaches unsupported code)
+			if pt, ok := deref(g.Type()).Underlying().(*types.Pointer); ok {
+				obj := new(Value)
+				*obj = m.zero(pt.Elem())
+				cell := new(Value)
+				*cell = obj
+				m.globals[g] = cell
+				continue
+			}
+		}
 		if p.Pkg.Path() == "os" {
 			if target, ok := osErrAliases[g.Name()]; ok {
 				if fs := m.prog.ImportedPackage("io/fs"); fs != nil {
